@@ -26,6 +26,8 @@ SIGMA = [
     # pseudo-class names with a letter written as an escape (of the upper-case and of the lower-case letter): every place that looks the name up
     # must normalise it the same way
     ':\\4e th-child(', ':\\4c ang(', ':n\\4f t(', ':\\64 ir(', ':-soup-\\43ontains(', ':\\52oot',
+    # text that means something to str.format / % formatting: error messages quote the input
+    '{', '}', '{0}', '%s', '%(a)s', '\\{',
 ]
 CORE = ['a', '*', '|', '#', '.', '[', ']', '=', '"', '\\', ' ', ',', '>', ':', '(', ')']
 CORE2 = ['a', '[', ']', '=', '"', "'", '\\', ' i', ' ſ', ':not(', ')', ',']
